@@ -42,6 +42,10 @@ def cases_for(ctx, sets, layouts):
             if k % 2:
                 src = junk_lines(src.rstrip(b'\n'), rnd) + b'\n'
             out.append(('%s#%d/%s' % (label, k, lay), src, b['deriv'], True))
+            if any(x['t'] in ('unop', 'binop') for x in b['toks']) and k % 4 == 0:
+                src2 = progs.render(b, lay, random.Random(ctx.seed * 104729 + k), respell=('minus', 'dots', 'tilde')[(k // 4) % 3])
+                if src2 is not None and src2 != src:
+                    out.append(('%s#%d/%s/respelled' % (label, k, lay), src2, b['deriv'], True))
     return out
 
 
